@@ -5,6 +5,7 @@ import (
 	"fmt"
 	"math/rand"
 	"os"
+	"os/exec"
 	"path/filepath"
 	"runtime"
 	"sort"
@@ -22,6 +23,7 @@ type Control struct {
 	Edits      []Edit   `json:"edits"`
 	ExpectRule string   `json:"expect_rule,omitempty"` // prefix of the rule that must report (positive)
 	Note       string   `json:"note"`
+	PatchFile  string   `json:"patch_file,omitempty"` // seeded change: a unified diff applied to a scratch copy of the touched files
 }
 
 type Edit struct {
@@ -55,11 +57,95 @@ func loadCatalogue(verif string) ([]Control, error) {
 		}
 		all = append(all, cs...)
 	}
+	// seeded changes (independent mutants and regressions of repaired defects) are positive controls of the
+	// property they break
+	metas, _ := filepath.Glob(filepath.Join(verif, "seeded", "*", "meta.json"))
+	sort.Strings(metas)
+	for _, mf := range metas {
+		b, err := os.ReadFile(mf)
+		if err != nil {
+			continue
+		}
+		var m struct {
+			ID     string   `json:"id"`
+			Breaks string   `json:"breaks_property"`
+			Prop   string   `json:"property"`
+			Also   []string `json:"also"`
+			Needs  string   `json:"needs_to_manifest"`
+			Needs2 string   `json:"needs"`
+		}
+		if json.Unmarshal(b, &m) != nil {
+			continue
+		}
+		prop := m.Breaks
+		if prop == "" {
+			prop = m.Prop
+		}
+		id := m.ID
+		if id == "" {
+			id = filepath.Base(filepath.Dir(mf))
+		}
+		note := m.Needs
+		if note == "" {
+			note = m.Needs2
+		}
+		all = append(all, Control{ID: "seeded/" + id, Kind: "positive", Properties: append([]string{prop}, m.Also...), Note: note, PatchFile: filepath.Join(filepath.Dir(mf), "patch.diff")})
+	}
 	return all, nil
+}
+
+// patchOverlay applies a unified diff to scratch copies of the files it touches and returns them as an overlay.
+func patchOverlay(repo, patchFile string) (map[string][]byte, bool) {
+	b, err := os.ReadFile(patchFile)
+	if err != nil {
+		return nil, false
+	}
+	var files []string
+	for _, line := range strings.Split(string(b), "\n") {
+		if strings.HasPrefix(line, "+++ b/") {
+			files = append(files, strings.TrimSpace(strings.TrimPrefix(line, "+++ b/")))
+		}
+	}
+	if len(files) == 0 {
+		return nil, false
+	}
+	tmp, err := os.MkdirTemp("", "cachelint-seed-")
+	if err != nil {
+		return nil, false
+	}
+	defer os.RemoveAll(tmp)
+	for _, f := range files {
+		src, err := os.ReadFile(filepath.Join(repo, f))
+		if err != nil {
+			return nil, false
+		}
+		dst := filepath.Join(tmp, f)
+		os.MkdirAll(filepath.Dir(dst), 0o755)
+		if os.WriteFile(dst, src, 0o644) != nil {
+			return nil, false
+		}
+	}
+	cmd := exec.Command("patch", "-p1", "-s", "-f", "-i", patchFile)
+	cmd.Dir = tmp
+	if err := cmd.Run(); err != nil {
+		return nil, false
+	}
+	ov := map[string][]byte{}
+	for _, f := range files {
+		nb, err := os.ReadFile(filepath.Join(tmp, f))
+		if err != nil {
+			return nil, false
+		}
+		ov[filepath.Join(repo, f)] = nb
+	}
+	return ov, true
 }
 
 // overlayFor builds the in-memory variant; ok=false when an anchor no longer exists.
 func overlayFor(repo string, c Control) (map[string][]byte, bool) {
+	if c.PatchFile != "" {
+		return patchOverlay(repo, c.PatchFile)
+	}
 	ov := map[string][]byte{}
 	for _, e := range c.Edits {
 		path := filepath.Join(repo, e.File)
